@@ -307,6 +307,7 @@ func (in *Interp) lookup(x *ssa.Lookup, mv, k Value) Value {
 	m := mv.(MapV)
 	mt := x.X.Type().Underlying().(*types.Map)
 	in.checkHashable(k)
+	in.noteMapAccess(m.M, false)
 	e := in.mapFind(m.M, k)
 	var v Value
 	if e != nil {
@@ -331,6 +332,7 @@ func (in *Interp) mapUpdate(m MapV, k, v Value) {
 		panic(goPanic("assignment to entry in nil map"))
 	}
 	in.checkHashable(k)
+	in.noteMapAccess(m.M, true)
 	if e := in.mapFind(m.M, k); e != nil {
 		e.V = v
 		return
@@ -343,6 +345,7 @@ func (in *Interp) mapDelete(m MapV, k Value) {
 	if m.M == nil {
 		return
 	}
+	in.noteMapAccess(m.M, true)
 	if e := in.mapFind(m.M, k); e != nil {
 		e.Deleted = true
 		m.M.N--
@@ -353,6 +356,7 @@ func (in *Interp) rangeIter(v Value) Value {
 	switch x := v.(type) {
 	case MapV:
 		it := &MapIter{IsMap: true, M: x.M}
+		in.noteMapAccess(x.M, false)
 		if x.M != nil {
 			for _, e := range x.M.Entries {
 				if !e.Deleted {
@@ -478,6 +482,7 @@ func (in *Interp) sliceElems(s SliceV) []Value {
 	}
 	arr := s.Arr.V.(*ArrayV)
 	for i := 0; i < s.Len; i++ {
+		in.noteAccessP(s.Arr, []int{s.Off + i}, false)
 		out[i] = in.elem(arr, s.Off+i)
 	}
 	return out
@@ -503,7 +508,9 @@ func (in *Interp) appendSlice(s SliceV, add []Value, et types.Type) SliceV {
 		for i, v := range add {
 			na.Elems[s.Off+s.Len+i] = v
 		}
-		in.noteAccess(s.Arr, true)
+		for i := range add {
+			in.noteAccessP(s.Arr, []int{s.Off + s.Len + i}, true)
+		}
 		s.Arr.V = na
 		return SliceV{Arr: s.Arr, Off: s.Off, Len: n, Cap: s.Cap}
 	}
